@@ -139,7 +139,16 @@ class DisjunctiveConditionsRemover(engines.engine.Engine, CompilerMixin):
         problem_kind: ProblemKind, compilation_kind: Optional[CompilationKind] = None
     ) -> ProblemKind:
         new_kind = problem_kind.clone()
-        new_kind.unset_conditions_kind("DISJUNCTIVE_CONDITIONS")
+        if new_kind.has_disjunctive_conditions():
+            # the negation normal form of implications and negated compounds
+            # introduces negated atoms
+            new_kind.set_conditions_kind("NEGATIVE_CONDITIONS")
+            if not (
+                new_kind.has_existential_conditions()
+                or new_kind.has_universal_conditions()
+            ):
+                # disjunctions below a quantifier are not removed
+                new_kind.unset_conditions_kind("DISJUNCTIVE_CONDITIONS")
         return new_kind
 
     def _compile(
